@@ -62,6 +62,10 @@ pub enum Idx {
     Len,
     LenPlus1,
     Max,
+    /// 2^(63 - shift) + small: index * stride wraps back into the window for power-of-two strides
+    HighBit(u8, u8),
+    /// usize::MAX / k + 1 + small: index * k wraps to a small offset (any stride k)
+    MaxDivPlus(u8, u8),
 }
 
 #[derive(Clone, Debug)]
@@ -146,6 +150,8 @@ fn idx() -> impl Strategy<Value = Idx> {
         3 => Just(Idx::Len),
         1 => Just(Idx::LenPlus1),
         1 => Just(Idx::Max),
+        1 => (0u8..5, 0u8..6).prop_map(|(a, b)| Idx::HighBit(a, b)),
+        1 => (1u8..=16, 0u8..6).prop_map(|(a, b)| Idx::MaxDivPlus(a, b)),
     ]
 }
 
@@ -472,6 +478,8 @@ fn resolve_idx(i: &Idx, len: usize) -> usize {
         Idx::Len => len,
         Idx::LenPlus1 => len.saturating_add(1),
         Idx::Max => usize::MAX,
+        Idx::HighBit(shift, small) => (1usize << (63 - (*shift as u32).min(8))) + *small as usize,
+        Idx::MaxDivPlus(k, small) => (usize::MAX / (*k as usize).max(1)).saturating_add(1).saturating_add(*small as usize),
     }
 }
 
@@ -767,6 +775,15 @@ where
                     if arr.read_item(n).is_ok() || arr.check_index(n).is_ok() {
                         return Err(fail("dep-item", format!("dep array item {} (== len) is readable", n)));
                     }
+                    if size > 0 {
+                        // indices whose product with the element size wraps back into the window
+                        let q = usize::MAX / size;
+                        for i in [q.wrapping_add(1), q.wrapping_add(2), 1usize << 63, (1usize << 63) + 1, 1usize << 62, (1usize << 61) + 2, usize::MAX] {
+                            if i >= n && (arr.read_item(i).is_ok() || arr.check_index(i).is_ok()) {
+                                return Err(fail("dep-item", format!("dep array item {} (>= len {}) is readable (element size {})", i, n, size)));
+                            }
+                        }
+                    }
                     st.edge_access = true;
                     if n <= 64 {
                         let v: Vec<Option<&[u8]>> = arr.iter_res().map(|r| r.ok()).collect();
@@ -1013,11 +1030,13 @@ fn u_elem(u: &mut Unstructured) -> arbitrary::Result<ElemTy> {
 }
 
 fn u_idx(u: &mut Unstructured) -> arbitrary::Result<Idx> {
-    Ok(match u.int_in_range(0u8..=11)? {
+    Ok(match u.int_in_range(0u8..=13)? {
         0..=3 => Idx::Small(u.int_in_range(0u8..=9)?),
         4..=6 => Idx::LenMinus1,
         7..=9 => Idx::Len,
         10 => Idx::LenPlus1,
+        11 => Idx::HighBit(u.int_in_range(0u8..=4)?, u.int_in_range(0u8..=5)?),
+        12 => Idx::MaxDivPlus(u.int_in_range(1u8..=16)?, u.int_in_range(0u8..=5)?),
         _ => Idx::Max,
     })
 }
